@@ -33,6 +33,7 @@ func envOr(k, def string) string {
 	}
 	return def
 }
+
 const modulePath = "github.com/vmware/go-ipfix"
 
 func main() {
